@@ -93,7 +93,7 @@ MkVariant(v, i) == [name |-> StyleName(v.style), style |-> v.style, shape |-> v.
                     rename |-> RenameOf(v.rclass, i), rclass |-> v.rclass]
 MkEnum(ra, tg, vs) == [kind |-> "enum", ra |-> ra, tagging |-> tg, variants |-> [i \in DOMAIN vs |-> MkVariant(vs[i], i)]]
 VShape(sh, pl) == [style |-> "A", shape |-> sh, payload |-> pl, rclass |-> "none"]
-VShapes == {VShape("unit", "none"), VShape("newtype", "str"), VShape("newtype", "inner"), VShape("struct", "none")}
+VShapes == {VShape("unit", "none"), VShape("newtype", "str"), VShape("newtype", "inner"), VShape("struct", "none"), VShape("empty", "none")}
 VPosStyle == <<"FooBar", "A", "Nt2X">>
 VStyled(v, i) == [v EXCEPT !.style = VPosStyle[i]]
 WFEnum(d) ==
@@ -103,7 +103,9 @@ WFEnum(d) ==
   /\ \A i, j \in DOMAIN d.variants : i # j => VariantTag(d, i) # VariantTag(d, j)
   \* untagged: reading picks the first variant that fits, so the shapes must be distinguishable
   /\ (d.tagging = "untagged" => \A i, j \in DOMAIN d.variants : i # j =>
-          <<d.variants[i].shape, d.variants[i].payload>> # <<d.variants[j].shape, d.variants[j].payload>>)
+          /\ <<d.variants[i].shape, d.variants[i].payload>> # <<d.variants[j].shape, d.variants[j].payload>>
+          \* (an untagged `V {}` reads any object: it only goes with variants that are not objects)
+          /\ (d.variants[i].shape = "empty" => d.variants[j].shape = "unit" \/ d.variants[j].payload = "str"))
 EnumsMixed(ras) == {d \in {MkEnum(ra, tg, <<VStyled(VShape("struct", "none"), 1), VStyled(VShape("unit", "none"), 2),
                                              VStyled(VShape("newtype", pl), 3)>>) : ra \in ras, tg \in Taggings, pl \in {"str", "inner"}}
                       : WFEnum(d)}
